@@ -4,7 +4,7 @@
 # Writes /tmp/mutout/<ID>/<mN>/confirm.txt
 ID=$1; M=$2; WT=${WT:-/tmp/wt-$ID}; D=/tmp/mutout/$ID/$M; OUT=$D/confirm.txt
 cd $WT || exit 2
-FEAT=""; case " C16 C17 C18 C19 " in *" $ID "*) FEAT="--features security";; esac
+FEAT=""; case " C16 C17 C18 C19 " in *" $ID "*) FEAT="--features security";; esac; [ -n "${SEC:-}" ] && FEAT="--features security"
 git checkout -q -- . && git clean -fdq -e target
 names=$(grep -E '^\+\s*(pub )?(async )?fn [a-z0-9_]+\(\)' $D/demo.diff | sed -E 's/.*fn ([a-z0-9_]+)\(\).*/\1/' | sort -u)
 [ -z "$names" ] && names="__no_test_found__"
